@@ -127,8 +127,13 @@ Definition law_dra_ops (d : dres) (o : option dres) (ga gs : dres) : bool :=
   end.
 
 (* ---- Quantity conversions ---- *)
-Definition dRlist : dec rlist := dZmap.
-Definition eRlist (m : rlist) : list Z := eZmap m.
+(* a quantity travels as (whole units, remaining milli-units), both of the sign of the quantity, so that
+   whole-unit quantities up to 2^63 units fit the int64 tokens *)
+Definition dRlist : dec rlist :=
+  let* l := dList (let* k := dPos in let* u := dZ in let* f := dZ in ret (k, u * 1000 + f)) in
+  ret (list_to_map l : rlist).
+Definition eRlist (m : rlist) : list Z :=
+  eList (fun kv => [Zpos (fst kv); Z.quot (snd kv) 1000; Z.rem (snd kv) 1000]) (sort_kv (map_to_list m)).
 
 (* x is m rounded away from zero to whole units (multiples of 1000 milli) *)
 Definition whole_up (m x : Z) : bool :=
@@ -138,7 +143,9 @@ Definition whole_up (m x : Z) : bool :=
 
 (* r --ConvertRes2ResList--> rl --NewResource--> (r', maxTaskNum) , all three as observed *)
 Definition law_rt_res (r : res) (rl : rlist) (r' : res) (mt : Z) : bool :=
-  if bool_decide (scm r !! cpu_name = None) && bool_decide (scm r !! mem_name = None) then
+  (* every amount a float64-exact integer below 2^63 in magnitude (excludes only the MaxFloat64 sentinel:
+     an int64-backed Quantity cannot carry it) *)
+  if res_exact r && bool_decide (scm r !! cpu_name = None) && bool_decide (scm r !! mem_name = None) then
     (* to quantities, per dimension *)
     bool_decide (rl !! cpu_name = Some (cpu r)) && bool_decide (rl !! mem_name = Some (1000 * mem r)) &&
     forallb (fun k => bool_decide (k = cpu_name) || bool_decide (k = mem_name) ||
@@ -156,17 +163,24 @@ Definition law_rt_res (r : res) (rl : rlist) (r' : res) (mt : Z) : bool :=
 Definition law_rt_list (rl : rlist) (r : res) (mt : Z) (rl' : rlist) : bool :=
   forallb (fun k =>
     match name_class k with
-    | CCpu => bool_decide (rl' !! k = Some (default 0 (rl !! k))) && zeqb (cpu r) (default 0 (rl !! k))
-    | CMem => match rl' !! k with
+    | CCpu => negb (amount_ok (default 0 (rl !! k))) ||
+              bool_decide (rl' !! k = Some (default 0 (rl !! k))) && zeqb (cpu r) (default 0 (rl !! k))
+    | CMem => negb (amount_ok (qvalue (default 0 (rl !! k)))) ||
+              match rl' !! k with
               | Some x => whole_up (default 0 (rl !! k)) x && zeqb (1000 * mem r) x
               | None => false
               end
     | CPods => match rl !! k, rl' !! k with
-               | Some m, Some x => whole_up m x && zeqb (1000 * sget r k) x && zeqb (1000 * mt) x
+               | Some m, Some x => negb (amount_ok (qvalue m)) ||
+                                   whole_up m x && zeqb (1000 * sget r k) x && zeqb (1000 * mt) x
                | None, None => zeqb mt 0
                | _, _ => false
                end
-    | CEph | CScalar => bool_decide (rl' !! k = rl !! k) && bool_decide (scm r !! k = rl !! k)
+    | CEph | CScalar => match rl !! k with
+                        | Some m => negb (amount_ok m) ||
+                                    bool_decide (rl' !! k = Some m) && bool_decide (scm r !! k = Some m)
+                        | None => bool_decide (rl' !! k = None) && bool_decide (scm r !! k = None)
+                        end
     | CCountQuota | CIgnoredDev | CDropped => bool_decide (rl' !! k = None) && bool_decide (scm r !! k = None)
     end)
   (cpu_name :: mem_name :: pods_name :: keys_list rl ++ keys_list rl' ++ keys_list (scm r)).
@@ -258,3 +272,13 @@ Definition law_partial (less lesseq lp lep rl : bool) : bool :=
 
 (* Resource.Sub panics exactly when its argument is not LessEqual (Zero convention) the receiver *)
 Definition law_sub_assert (panicked rr_le_r : bool) : bool := Bool.eqb panicked (negb rr_le_r).
+
+(* MinDimensionResource under the Infinity convention: cpu and memory are plain minima (0 is a bound like
+   any other), a scalar of r is bounded by rr's amount when rr has that name and left alone otherwise *)
+Definition law_min_inf (r rr mn : res) : bool :=
+  zeqb (cpu mn) (Z.min (cpu r) (cpu rr)) && zeqb (mem mn) (Z.min (mem r) (mem rr)) &&
+  forallb (fun k => match scm r !! k with
+                    | Some v => bool_decide (scm mn !! k = Some (match scm rr !! k with Some w => Z.min v w | None => v end))
+                    | None => bool_decide (scm mn !! k = None)
+                    end)
+          (keys_of [r; rr; mn]).
